@@ -16,6 +16,7 @@ batch of cases in one such process, in order; {"fresh_views": [{"imports":…}, 
 
 Nothing of taskiq is re-implemented here: the driver builds Python objects, calls the entry point inside an
 observation window and canonicalises what came out."""
+import abc
 import ast
 import builtins
 import gc
@@ -96,6 +97,18 @@ def executed_modules(files):
     return sorted({owner.get(f, "file:" + os.path.basename(f)) for f in files})
 
 
+# --------------------------------------------------------------------------- what an object IS
+TYPE_MRO = type.__dict__["__mro__"]
+
+
+def true_class(o):
+    """(is a class, is an exception class) as the interpreter's type machinery has it - the type of the object and the MRO
+    slot of a real class - without asking the object anything (`isinstance(o, type)` falls back to `o.__class__`,
+    `issubclass(o, B)` walks `o.__bases__` of a non-class: both can be answered by the object) and without taskiq"""
+    is_type = issubclass(type(o), type)
+    return is_type, is_type and BaseException in TYPE_MRO.__get__(o)
+
+
 # --------------------------------------------------------------------------- trap objects
 def make_func(oid, passthrough=None):
     def trap(*a, **k):
@@ -107,8 +120,13 @@ def make_func(oid, passthrough=None):
     return trap
 
 
-def make_class(oid, hook, bases=(object,), ctor="any"):
-    """a class recording its own instantiation through exactly one hook: __new__, __init__ or the metaclass"""
+def make_class(oid, hook, bases=(object,), ctor="any", look=None):
+    """a class recording its own instantiation through exactly one hook: __new__, __init__ or the metaclass.
+    look: a REAL class whose metaclass answers the class protocol oddly (what it is stays what Python's type machinery says:
+    `issubclass(cls, BaseException)` is decided by BaseException's metaclass, not by the one of cls):
+    "checks-true" / "checks-false" - __subclasscheck__ / __instancecheck__ of the metaclass always answer that;
+    "abc-registered" - abc.ABCMeta with exception classes registered as virtual subclasses;
+    "checks-raise" - the metaclass checks raise"""
     is_exc = bases != (object,)
 
     def behave():
@@ -141,8 +159,19 @@ def make_class(oid, hook, bases=(object,), ctor="any"):
                 bases[0].__init__(self, *a)
         ns["__init__"] = __init__
     meta = type
+    if look is not None:
+        mns = {}
+        if look in ("checks-true", "checks-false"):
+            mns["__subclasscheck__"] = mns["__instancecheck__"] = lambda cls, other, _v=(look == "checks-true"): _v
+        elif look == "checks-raise":
+            def _raise(cls, other):
+                raise RuntimeError("metaclass check of %d" % oid)
+            mns["__subclasscheck__"] = mns["__instancecheck__"] = _raise
+        elif look != "abc-registered":
+            raise ValueError(look)
+        meta = type("LookMeta_%d" % oid, (abc.ABCMeta if look == "abc-registered" else type,), mns)
     if hook == "meta":
-        class Meta(type):
+        class Meta(meta):
             def __call__(cls, *a, **k):
                 log("inst", oid)
                 behave()
@@ -150,15 +179,89 @@ def make_class(oid, hook, bases=(object,), ctor="any"):
         meta = Meta
         if not is_exc and "__init__" not in ns:
             ns["__init__"] = lambda self, *a, **k: None
-    return meta("Trap_%d" % oid, bases, ns)
+    cls = meta("Trap_%d" % oid, bases, ns)
+    if look == "abc-registered":
+        for e in (ValueError, KeyError, SystemExit):
+            if not issubclass(cls, e):               # (abc refuses an inheritance cycle)
+                cls.register(e)
+    return cls
 
 
 EXC_BASES = {"Exception": Exception, "BaseException": BaseException, "ValueError": ValueError, "KeyError": KeyError,
              "SystemExit": SystemExit}
 
 
+CLASS_DUNDERS = ("__bases__", "__mro__", "__name__", "__qualname__", "__module__", "__base__", "__subclasses__", "__flags__",
+                 "__basicsize__", "__dictoffset__", "__itemsize__", "__weakrefoffset__", "__subclasshook__",
+                 "__init_subclass__", "__abstractmethods__", "__text_signature__", "__doc__", "__dict__", "__wrapped__")
+
+
+def make_lookalike(oid, look, wraps):
+    """an object that is NOT a class (its type is an ordinary class, so no type() / type.__mro__ based test calls it one)
+    but answers part of the class protocol as if it were: what `issubclass` / `isinstance` / hand-written class tests ask
+    a non-class first argument.  Callable; being called is recorded.  `wraps`: the exception class (or, for the variants
+    that also answer `__class__` with `type`, the non-exception class) it stands in front of."""
+    def __call__(self, *a, **k):
+        log("call", oid)
+        try:
+            return wraps(*a)
+        except Exception:  # noqa: BLE001
+            return "pwned"
+    ns = {"__call__": __call__, "__slots__": ()}
+    spoof = property(lambda self: type)
+
+    def forward(self, name):
+        if name == "__wrapped__":
+            return wraps
+        return getattr(wraps, name)
+    if look in ("bases", "bases-and-mro"):                 # class attributes
+        ns["__bases__"] = (wraps,)
+        if look == "bases-and-mro":
+            ns["__mro__"] = (wraps,) + wraps.__mro__
+            ns["__name__"] = ns["__qualname__"] = "Claims_%d" % oid
+    elif look == "bases-instance-attr":                    # set on the instance after construction
+        del ns["__slots__"]
+    elif look == "bases-deep":                             # reaches the exception class in two steps, through another look-alike
+        ns["__bases__"] = (type("Step_%d" % oid, (), {"__bases__": (wraps,), "__slots__": ()})(),)
+    elif look == "bases-empty":
+        ns["__bases__"] = ()
+    elif look == "bases-property":
+        ns["__bases__"] = property(lambda self: (wraps,))
+    elif look in ("bases-raise-attributeerror", "bases-raise"):
+        def _bases(self):
+            raise (AttributeError if look == "bases-raise-attributeerror" else RuntimeError)("__bases__ of %d" % oid)
+        ns["__bases__"] = property(_bases)
+    elif look == "mro-only":
+        ns["__mro__"] = (wraps,) + wraps.__mro__
+    elif look == "proxy":                                  # transparent: everything it has not is the wrapped class'
+        ns["__getattr__"] = forward
+    elif look == "answers-class-dunders":                  # __getattribute__ itself answers every dunder of the class protocol
+        def __getattribute__(self, name):
+            if name in CLASS_DUNDERS:
+                return forward(self, name)
+            return object.__getattribute__(self, name)
+        ns["__getattribute__"] = __getattribute__
+    elif look == "class-spoof":                            # says its __class__ is `type`; no exception anywhere near
+        ns["__class__"] = spoof
+        ns["__bases__"] = (wraps,) if wraps is not object else ()
+    elif look == "class-spoof-no-bases":                   # NOT generated (corpus/C20/known): issubclass() itself raises TypeError
+        ns["__class__"] = spoof
+    elif look == "proxy-class-spoof":                      # wrapt-style: __class__ forwarded too (around a NON-exception class)
+        ns["__class__"] = spoof
+        ns["__getattr__"] = forward
+    else:
+        raise ValueError(look)
+    o = type("Look_%d" % oid, (), ns)()
+    if look == "bases-instance-attr":
+        o.__bases__ = (wraps,)
+    return o
+
+
 def make_inst(spec, build_child):
     of, oid = spec.get("of", "plain"), spec["id"]
+    if of == "look":
+        wraps = EXC_BASES[spec["wraps"]] if spec["wraps"] in EXC_BASES else {"object": object, "dict": dict}[spec["wraps"]]
+        return make_lookalike(oid, spec["look"], wraps)
     if of == "plain":
         return type("Plain_%d" % oid, (), {})()
     if of == "callable":
@@ -205,10 +308,10 @@ class Env:
         if k in ("func", "builtin"):
             return make_func(sp["id"])
         if k == "class":
-            return make_class(sp["id"], sp.get("hook", "init"))
+            return make_class(sp["id"], sp.get("hook", "init"), look=sp.get("look"))
         if k == "exc":
             return make_class(sp["id"], sp.get("hook", "init"), (EXC_BASES[sp.get("base", "Exception")],),
-                              sp.get("ctor", "any"))
+                              sp.get("ctor", "any"), look=sp.get("look"))
         if k == "inst":
             return make_inst(sp, lambda csp: self.build(csp, None, None, premade=True))
         raise ValueError(k)
@@ -261,11 +364,12 @@ class Env:
         is_mod = issubclass(type(o), types.ModuleType)
         # a module object is not asked anything (a failing isinstance looks `__class__` up ON the object, and a module that
         # was registered without having been executed - importlib.util.LazyLoader - runs its code on the first lookup)
-        is_type = not is_mod and isinstance(o, type)
-        is_exc = is_type and issubclass(o, BaseException)
+        is_type, is_exc = (False, False) if is_mod else true_class(o)
+        if not is_mod and not sp.get("look") and (is_type, is_exc) != (isinstance(o, type), is_type and issubclass(o, BaseException)):
+            self.problems.append("object %d: isinstance/issubclass disagree with its type" % sp["id"])
         want = {"exc": (True, True), "class": (True, False)}.get(k, (False, False))
         if (is_type, is_exc) != want:
-            self.problems.append("object %d declared %s but isinstance/issubclass say %r" % (sp["id"], k, (is_type, is_exc)))
+            self.problems.append("object %d declared %s but its type / MRO say %r" % (sp["id"], k, (is_type, is_exc)))
         if k == "module" and not is_mod:
             self.problems.append("object %d is not a module" % sp["id"])
         if k in ("func", "builtin") and not callable(o):
@@ -388,7 +492,7 @@ class Canon:
     def __init__(self, env, mat, synth):
         self.cls_ids = {}
         for oid, o in env.by_id.items():
-            if isinstance(o, type):
+            if not issubclass(type(o), types.ModuleType) and true_class(o)[0]:
                 self.cls_ids[id(o)] = oid
         self.mat, self.synth = mat, {id(c) for c in synth}
 
